@@ -169,3 +169,41 @@ func vh_C17_stars(a []int) {
 	vAssert("C17.stars-equals-grammar", vIff(got, want))
 	vReach("C17.end")
 }
+
+// vh_C17_skeleton: longer patterns built from a skeleton of meta characters with arbitrary ASCII bytes in
+// the holes: several classes, classes next to escapes and wildcards — shapes the fully symbolic bound
+// (pattern <= 5 bytes) cannot reach.
+// a = {skeleton, name length}; X, Y are 1 arbitrary byte each, Z is 2 arbitrary bytes
+var vhSkeletons = []string{
+	"[^X][Y]", "[X][^Y]", "[^X][^Y]", "[X][Y]", "[^X]?[Y]", "[X-Y][^Z]", "[^X]\\Y[Y]", "[^X]*[Y]", "Z[^X]Y", "?[X]*[^Y]", "[^X]Y[X-Y]",
+}
+
+func vh_C17_skeleton(a []int) {
+	sk := vhSkeletons[a[0]]
+	x, y, z := vBytes("x", 1), vBytes("y", 1), vBytes("z", 2)
+	vhASCII(x)
+	vhASCII(y)
+	vhASCII(z)
+	p := ""
+	for i := 0; i < len(sk); i++ {
+		switch sk[i] {
+		case 'X':
+			p += x
+		case 'Y':
+			p += y
+		case 'Z':
+			p += z
+		default:
+			p += sk[i : i+1]
+		}
+	}
+	s := vBytes("name", a[1])
+	vhASCII(s)
+	got := NewSet(s).Filter(p).Has(s)
+	want := vspecGlob(p, s)
+	vObserve("member-skeleton", got)
+	vAssert("C17.skeleton-equals-grammar", vIff(got, want))
+	vReach("C17.end")
+}
+
+func init() { vhRegister("vh_C17_skeleton", vh_C17_skeleton) }
